@@ -407,6 +407,25 @@ def rule_rt4(prog, prop=PROP, rid='R-RT-4', langs=('PL', 'CTLS', 'LTL',
         acc = acceptance(prog, lang)
         res = reserved_words(prog, lang)
         rules, problems, conflicts, nst = injectivity(tm, res, acc)
+        # And(x) / Or(x) with one operand can be built through the
+        # constructors: two different (operator, arity) pairs must not have
+        # the same template (identical text for different trees)
+        seen_t = {}
+        for (name, n, pieces, f) in templates(prog, lang, with_unary=True):
+            key = tuple(pieces)
+            other = seen_t.get(key)
+            if other is not None and other != (name, n) and \
+                    name not in ('Bool',) and other[0] not in ('Bool',):
+                r.fail(Finding(
+                    prop, rid, f.where(), 'printers of ' + lang,
+                    'same-template:%s:%s/%s|%s/%s' % (lang, other[0],
+                                                      other[1], name, n),
+                    'the %s formulas %s(..) with %s operand(s) and %s(..) '
+                    'with %s operand(s) print with the same template `%s`: '
+                    'different trees, one printed form (== and hash are '
+                    'computed from it)' % (lang, other[0], other[1], name, n,
+                                           _tshow(pieces))))
+            seen_t.setdefault(key, (name, n))
         r.inst(notation=lang, printer_productions=len(rules),
                lr1_states=nst, conflicts=len(conflicts),
                problems=problems)
